@@ -68,7 +68,7 @@ impl CaoLangAllocator {
     /// the allocator at a time
     pub unsafe fn alloc(&self, l: Layout) -> Result<NonNull<u8>, AllocError> {
         #[cfg(feature = "verif-hooks")]
-        let verif_seq = crate::verif::alloc_request();
+        let verif_seq = crate::verif::alloc_request(self, l);
         let s = l.size() + l.align();
         let allocated = s + self.allocated.fetch_add(s, Ordering::Relaxed);
         if allocated > self.limit.load(Ordering::Relaxed) {
